@@ -67,6 +67,9 @@ pub fn explore(ex: &Ex) {
     let small = gen::msg_slots_small();
     let tiny = gen::msg_slots_tiny();
     let tagged = ex.scale != Scale::Small;
+    // arity 5 in the thorough tier: the first 49 slot values (the relational list values appended
+    // after them are covered at arity 3 and 4, where COSE_Sign / COSE_Encrypt / recipients live)
+    let medium: Vec<Item> = full.iter().take(49).cloned().collect();
     for arity in [3usize, 4, 5] {
         let slots: &[Item] = match (arity, ex.scale) {
             (_, Scale::Small) => &tiny,
@@ -74,7 +77,7 @@ pub fn explore(ex: &Ex) {
             (4, Scale::Quick) => &small,
             (4, Scale::Thorough) => &full,
             (5, Scale::Quick) => &small,
-            (5, Scale::Thorough) => &full,
+            (5, Scale::Thorough) => &medium,
             _ => &small,
         };
         let space = format!("c09.arity{}", arity);
